@@ -394,3 +394,52 @@ package object
 //@ requires[C09.unlocked] !ghost("lock.w", bool, goTypeMutex) && !ghost("lock.r", bool, goTypeMutex) && goTypeMutex != nil
 //@ ensures[C08.dyn.nil] obj == nil ==> err == nil && result0 == Nil
 //@ ensures[C08.dyn.via] obj != nil && err == nil ==> existsT(k, TypeConverter, uf("conv.for", bool, k, uf("go.typeof", reflect.Type, obj)) && result0 == uf("conv.from", Object, k, obj) && uf("conv.from.ok", bool, k, obj))
+
+// ---- Proxy and StructConverter: caller-side rules at the reflect calls that panic (C08 "never panics") ---------
+// These functions are outside the modelled subset as a whole (field lookup by name, method values, Addr); their
+// units are "trusted callpre": only the obligations below are generated, at the named reflect calls.
+//  * FieldByName is called on a valid Value (KF-46 fixed: a proxy of a nil pointer called it on the zero Value);
+//  * Value.Set receives a value whose type was tested with AssignableTo against the destination's type (KF-47
+//    fixed: interface-typed and struct-valued fields were set without a test).
+// Assumed: a proxy holds a non-nil interface value, and a pointer when its type says so (representation invariant
+// of NewProxy); reflect.Value.Type / Type.AssignableTo are functions of their operands.
+//@ external reflect.(Value).Type
+//@ modifies nothing
+//@ ensures result == uf("rv.type", reflect.Type, v)
+
+//@ external reflect.(Type).AssignableTo
+//@ modifies nothing
+//@ ensures result == uf("rt.assignable", bool, self, u)
+
+//@ spec assignable(x, dst) = uf("rt.assignable", bool, uf("rv.type", reflect.Type, x), uf("rv.type", reflect.Type, dst))
+
+//@ func (*Proxy).GetAttr
+//@ props C08
+//@ trusted callpre
+//@ assume[repr.proxy] p != nil && p.typ != nil && p.obj != nil && (p.typ.isPointerType ==> kindof(p.obj) == 22)
+//@ callpre[C08.proxy.field.valid] FieldByName: rvalid(recv)
+
+//@ func (*Proxy).SetAttr
+//@ props C08
+//@ trusted callpre
+//@ assume[repr.proxy] p != nil && p.typ != nil && p.obj != nil && (p.typ.isPointerType ==> kindof(p.obj) == 22)
+//@ callpre[C08.proxy.field.valid] FieldByName: rvalid(recv)
+//@ callpre[C08.proxy.set.assignable] Set: assignable(arg0, recv)
+
+//@ func (*StructConverter).To
+//@ props C08
+//@ trusted callpre
+//@ callpre[C08.struct.set.assignable] Set: assignable(arg0, recv)
+
+// ErrorConverter: a nil error converts to nil (KF-45 fixed: the unconditional assertion to error panicked on a nil
+// interface); the dispatcher sends it only values of types that implement error.
+//@ func (*ErrorConverter).From
+//@ props C08
+//@ safety typeassert nil
+//@ requires[C08.exacttype] obj == nil || (implements(obj, error) && ref(obj) != nil)
+//@ ensures[C08.err.nil] obj == nil ==> err == nil && result0 == Nil
+
+// Type.In(i): the i-th parameter type of a function type (never nil for a valid index).
+//@ external reflect.(Type).In
+//@ modifies nothing
+//@ ensures result != nil
